@@ -16,13 +16,18 @@ try:
     shutil.copy(os.path.join(os.environ.get("VERIF_REPO", "/repo"), "Cargo.lock"), srepo + "/Cargo.lock")
     kani_run.inject(srepo, registry.VERIF, registry.KANI_CRATES[crate]["common"])
     names = []
+    qual = {}
     for u in units.split(","):
         kani_run.inject(srepo, registry.VERIF, registry.KANI_UNITS[u]["inject"])
-        names += [h.name for h in kani_run.discover(os.path.join(registry.VERIF, registry.KANI_UNITS[u]["src"]), u, "")]
+        mod = registry.KANI_UNITS[u].get("module", "")
+        for h in kani_run.discover(os.path.join(registry.VERIF, registry.KANI_UNITS[u]["src"]), u, ""):
+            qual[h.name] = (mod + "::" + h.name) if mod else h.name
+            names.append(h.name)
     if hs != "ALL":
         names = hs.split(",")
+    names = [qual.get(n, n) for n in names]
     cdir = os.path.normpath(os.path.join(srepo, registry.KANI_CRATES[crate]["dir"]))
-    out = kani_run.run_kani(cdir, names, features=feats, jobs=12, timeout=wall, log_path="/tmp/kani_one.log", harness_timeout=ht)
+    out = kani_run.run_kani(cdir, names, features=feats, jobs=12, timeout=wall, log_path="/tmp/kani_one.log", harness_timeout=ht, exact_ok=all(n in qual.values() for n in names))
     for k, v in sorted(out["results"].items()):
         print("%-50s %-10s %7.1fs checks=%s %s" % (k.split("::")[-1], v["status"], v["time"], v["checks"], [f["check"][:80] for f in v["failed"][:3]]))
     print("wall %.0fs timed_out=%s compile_error=%s killed=%s" % (out["wall"], out["timed_out"], out["compile_error"], out["killed"]))
